@@ -220,6 +220,55 @@ namespace c13
         VF_CHECK(fabsl(got - ref) <= 64.0L * 1.2e-16L * (long double)(3 * N + N1 + 8) * (refabs + 1e-300L), "tuple: sum of frequency-weighted local dots " << (double)got << " differs from the global dot " << (double)ref);
         };
         tuple_check(std::true_type()); tuple_check(std::false_type());
+        // three components <blocked<2> in the case's space, scalar Lagrange-1, scalar Lagrange-1 with other values>: the buffer offsets of the second
+        // AND third sub-mirror (recursion of TupleMirror) in gather / scatter_axpy, and the frequencies of a three-component gate
+        {
+          typedef FEAT::Space::Lagrange1::Element<TrafoT> Space1; typedef FEAT::LAFEM::TupleVector<VB, V, V> TV3; typedef FEAT::LAFEM::TupleMirror<Mi, Mi, Mi> TM3;
+          Space1 bsp1(btrafo); const Index N1 = bsp1.get_num_dofs();
+          auto pval = [](Index i) { return double(int((i * 7 + 3) % 23) - 11) / 4.0; }; auto qval = [](Index i) { return 64.0 + double(int((i * 5 + 1) % 17)) / 2.0; };
+          std::vector<int> share1((size_t)N1, 0); std::vector<Mi> pm1(R); std::vector<std::map<int, TM3>> thm(R); std::vector<TV3> tl, tfreq; std::vector<Index> nd1(R);
+          for(size_t r = 0; r < R; ++r)
+          {
+            TrafoT tr(*P.patch[r]->get_mesh()); SpaceT sp(tr); Space1 sp1(tr); nd1[r] = sp1.get_num_dofs();
+            Assembly::MirrorAssembler::assemble_mirror(pm1[r], bsp1, *P.base->get_patch(int(r))); for(Index k = 0; k < nd1[r]; ++k) share1[pm1[r].indices()[k]]++;
+            TV3 v; v.template at<0>() = VB(nd[r]); v.template at<1>() = V(nd1[r]); v.template at<2>() = V(nd1[r]);
+            for(Index k = 0; k < nd[r]; ++k) { Index g = pm[r].indices()[k]; DT* e = v.template at<0>().template elements<FEAT::LAFEM::Perspective::pod>(); e[2 * k] = xv[g]; e[2 * k + 1] = 2.0 * wv[g]; }
+            for(Index k = 0; k < nd1[r]; ++k) { v.template at<1>().elements()[k] = pval(pm1[r].indices()[k]); v.template at<2>().elements()[k] = qval(pm1[r].indices()[k]); }
+            Global::Gate<TV3, TM3> gate;
+            for(int s : P.comm[r])
+            {
+              const PartOf<Shape_>* hp = P.patch[r]->get_halo(s); Mi m0, m1, m2; Assembly::MirrorAssembler::assemble_mirror(m0, sp, *hp); Assembly::MirrorAssembler::assemble_mirror(m1, sp1, *hp); m2 = m1.clone();
+              TM3 tm(std::move(m0), std::move(m1), std::move(m2)); thm[r].emplace(s, tm.clone()); gate._ranks.push_back(s); gate._mirrors.push_back(std::move(tm));
+            }
+            TV3 tmpl; tmpl.template at<0>() = VB(nd[r]); tmpl.template at<1>() = V(nd1[r]); tmpl.template at<2>() = V(nd1[r]);
+            gate.compile(std::move(tmpl)); tfreq.push_back(gate.get_freqs().clone()); tl.push_back(std::move(v));
+          }
+          for(size_t r = 0; r < R; ++r)
+          {
+            const DT* f0 = tfreq[r].template at<0>().template elements<FEAT::LAFEM::Perspective::pod>();
+            for(Index k = 0; k < nd[r]; ++k) for(int j = 0; j < 2; ++j) VF_CHECK(fabsl((long double)f0[2 * k + (Index)j] - 1.0L / (long double)share[pm[r].indices()[k]]) <= 4e-16L, "3-tuple gate: patch " << r << " component 0 dof " << k << " frequency " << f0[2 * k + (Index)j] << " expected 1/" << share[pm[r].indices()[k]]);
+            for(Index k = 0; k < nd1[r]; ++k) { const long double w = 1.0L / (long double)share1[pm1[r].indices()[k]];
+              VF_CHECK(fabsl((long double)tfreq[r].template at<1>().elements()[k] - w) <= 4e-16L && fabsl((long double)tfreq[r].template at<2>().elements()[k] - w) <= 4e-16L, "3-tuple gate: patch " << r << " Lagrange-1 dof " << k << " frequencies " << tfreq[r].template at<1>().elements()[k] << " / " << tfreq[r].template at<2>().elements()[k] << " expected 1/" << share1[pm1[r].indices()[k]]); }
+          }
+          std::vector<TV3> ts; for(auto& v : tl) ts.push_back(v.clone(FEAT::LAFEM::CloneMode::Deep));
+          for(size_t r = 0; r < R; ++r) for(int s : P.comm[r])
+          {
+            const TM3& ms = thm[(size_t)s].at(int(r)); const TM3& mr = thm[r].at(s);
+            V buf = ms.create_buffer(tl[(size_t)s]); VF_CHECK(buf.size() == mr.buffer_size(tl[r]), "3-tuple mirrors " << r << "<->" << s << " disagree on the buffer size: " << buf.size() << " vs " << mr.buffer_size(tl[r]));
+            VF_CHECK(buf.size() == 2 * ms.template at<0>().num_indices() + 2 * ms.template at<1>().num_indices(), "3-tuple buffer size " << buf.size() << " is not 2*" << ms.template at<0>().num_indices() << " + 2*" << ms.template at<1>().num_indices());
+            buf.format(DT(777)); ms.gather(buf, tl[(size_t)s]); for(Index q = 0; q < buf.size(); ++q) VF_CHECK(buf.elements()[q] != DT(777), "3-tuple gather left buffer entry " << q << " of " << buf.size() << " unwritten");
+            mr.scatter_axpy(ts[r], buf);
+          }
+          for(size_t r = 0; r < R; ++r)
+          {
+            const DT* e = ts[r].template at<0>().template elements<FEAT::LAFEM::Perspective::pod>();
+            for(Index k = 0; k < nd[r]; ++k) { Index g = pm[r].indices()[k];
+              VF_CHECK(fabsl((long double)e[2 * k] - (long double)share[g] * xv[g]) <= 1e-13L * (xmax + 1) * share[g] && fabsl((long double)e[2 * k + 1] - (long double)share[g] * 2.0 * wv[g]) <= 1e-12L * share[g] * 10, "tuple<blocked,scalar,scalar> sync_0: patch " << r << " component 0 dof " << k << " does not hold (number of sharing patches) x value: " << e[2 * k] << ", " << e[2 * k + 1]); }
+            for(Index k = 0; k < nd1[r]; ++k) { Index g = pm1[r].indices()[k]; const DT g1 = ts[r].template at<1>().elements()[k], g2 = ts[r].template at<2>().elements()[k];
+              VF_CHECK(fabsl((long double)g1 - (long double)share1[g] * pval(g)) <= 1e-13L * 8 * share1[g], "tuple<blocked,scalar,scalar> sync_0: patch " << r << " component 1 dof " << k << " = " << g1 << " expected " << share1[g] << " x " << pval(g));
+              VF_CHECK(fabsl((long double)g2 - (long double)share1[g] * qval(g)) <= 1e-13L * 128 * share1[g], "tuple<blocked,scalar,scalar> sync_0: patch " << r << " component 2 dof " << k << " = " << g2 << " expected " << share1[g] << " x " << qval(g)); }
+          }
+        }
       }
     }
   };
